@@ -349,7 +349,7 @@ ADDENDA = {
     'C04': 'Also generated: prekill hooks (30 %), systemd_restart under a ruleset-level cgroup (side effects only), restart-only scenarios whose dry and wet virtual time lines must coincide.',
     'C05': 'Also generated: sub-second tick offsets, actions that take virtual time; a second campaign (c05k) with real kill plugins and a scripted following action.',
     'C06': 'Also generated: sub-second tick offsets, actions that take virtual time; a second campaign runs real kill plugins suspended on scripted prekill hooks (C17 harness, VP_PROP=C06): a suspended action is not followed by the next action and is run again on the next tick.',
-    'C07': 'Also generated: drop-ins removed and re-added before the run (priority model replays the operations), kill(2) costing 50-900 ms of virtual time so that the hook window closes inside a walk, sub-second ticks.',
+    'C07': 'Also generated: drop-ins removed and re-added before the run (priority model replays the operations), kill(2) costing 50-900 ms of virtual time so that the hook window closes inside a walk, sub-second ticks; in 35 % of cases directory identities are kernfs-style 64-bit ids (generation << 32 | slot, slot kept per path) handed out by the shim in fstat, so a re-created cgroup differs from its predecessor only in the upper half.',
     'C08': 'Also generated: sub-second ticks, pswpout missing from /proc/vmstat for some ticks, the control file a detector reads absent / unreadable / empty for watched cgroups (an unavailable value contributes nothing).',
     'C09': 'Also generated: one-tick gaps of the pgscan sample with the plugin running on three consecutive ticks; siblings emptied by an earlier kill are not eligible.',
     'C10': 'Also enumerated: keys missing at one tick only, every child of a prefix vanishing for a tick and coming back (never sampled away), re-creation of a subtree only one non-recursive kill looks at, at every access touching it. Oracles added: a ruleset whose action can only run on a fabricated swap-out rate, an always-parking per-cgroup ruleset that must not act on re-created cgroups, containment judged per cgroup identity, and a per-case watchdog (60 s) that turns a hang into a violation.',
